@@ -12,10 +12,10 @@ Proof.
 Qed.
 
 Theorem session_inv fuel start end_ns p pre ks :
-  let x := run_session invoke_script etype_of fuel end_ns (script_init start p pre) ks in
+  let x := run_session invoke_script etype_of metric_of fuel end_ns (script_init start p pre) ks in
   s_phase x <> Failed -> Inv pay ustate (s_st x).
 Proof.
-  intros x Hf. pose proof (session_ok pay ustate invoke_script etype_of fuel end_ns (script_init start p pre) ks) as H.
+  intros x Hf. pose proof (session_ok pay ustate invoke_script etype_of metric_of fuel end_ns (script_init start p pre) ks) as H.
   fold x in H. unfold sess_ok in H.
   destruct (s_phase x); try (eapply steps_to_inv; [exact H|apply script_init_inv]).
   - destruct H as [H _]. eapply steps_to_inv; [exact H|apply script_init_inv].
